@@ -19,7 +19,7 @@ import taskdeps
 from tbf import walk, kids, strip, AnalysisBroken
 
 LEVEL = "other"
-TECHNIQUE = "capture-lifetime / dependence-vs-effect / submission-summary rules over the clang AST (libTooling)"
+TECHNIQUE = "capture-lifetime / dependence-vs-effect (canonical block handle vs element address) / submission-summary rules over the clang AST (libTooling)"
 
 PAIRS = [("TbfOpenmpAlgorithm", "TbfAlgorithm"), ("TbfOpenmpAlgorithmTsm", "TbfAlgorithmTsm")]
 SPECX_PAIRS = [("TbfSmSpecxAlgorithm", "TbfAlgorithm"), ("TbfSmSpecxAlgorithmTsm", "TbfAlgorithmTsm")]
